@@ -99,6 +99,14 @@ func parserCalls[G any](p *participle.Parser[G]) func(kind, in string) any {
 			r.Toks, r.Err = cloneToks(toks), errStr(err)
 		case "ebnf-string":
 			r.Text = p.String()
+		case "string-trailing":
+			// per-call options must stay per call
+			ast, err := p.ParseString("f", in, participle.AllowTrailing(true))
+			r.AST, r.Err = ast, errStr(err)
+		case "string-trace":
+			var buf bytes.Buffer
+			ast, err := p.ParseString("f", in, participle.Trace(&buf))
+			r.AST, r.Err, r.Text = ast, errStr(err), buf.String()
 		default:
 			ast, err := p.ParseString("f", in)
 			r.AST, r.Err = ast, errStr(err)
@@ -209,6 +217,13 @@ func materialise(o *c09Obj) (*sharedObj, string) {
 				return callResult{Toks: cloneToks(toks), Err: errStr(err)}
 			case "ebnf-string":
 				return callResult{Text: fx.EBNF()}
+			case "string-trailing":
+				ast, err := fx.Parse("string", "f", []byte(in), participle.AllowTrailing(true))
+				return callResult{AST: ast, Err: errStr(err)}
+			case "string-trace":
+				var buf bytes.Buffer
+				ast, err := fx.Parse("string", "f", []byte(in), participle.Trace(&buf))
+				return callResult{AST: ast, Err: errStr(err), Text: buf.String()}
 			}
 			ast, err := fx.Parse(kind, "f", []byte(in))
 			return callResult{AST: ast, Err: errStr(err)}
@@ -434,6 +449,10 @@ func TestC09(t *testing.T) {
 				o.Kind = "mapped"
 				o.Inputs = c09MappedInputs
 			}
+			if o.Kind != "rules" && o.Kind != "ebnf" && len(o.Inputs) > 0 {
+				// an input with something after a complete parse (what AllowTrailing is about)
+				o.Inputs = append(o.Inputs, o.Inputs[0]+" "+o.Inputs[len(o.Inputs)-1])
+			}
 			c.Objects = append(c.Objects, o)
 		}
 		kindsFor := func(o *c09Obj) []string {
@@ -443,9 +462,9 @@ func TestC09(t *testing.T) {
 			case "ebnf":
 				return []string{"string"}
 			case "fixture":
-				return []string{"string", "bytes", "reader", "lex", "ebnf-string"}
+				return []string{"string", "bytes", "reader", "lex", "ebnf-string", "string-trailing", "string-trace"}
 			}
-			return []string{"string", "string", "bytes", "reader", "lex", "ebnf-string"}
+			return []string{"string", "string", "bytes", "reader", "lex", "ebnf-string", "string-trailing", "string-trace"}
 		}
 		genOp := func() c09Op {
 			oi := rapid.IntRange(0, len(c.Objects)-1).Draw(t, "obj")
